@@ -940,6 +940,8 @@ def b_isinstance(x, t):
     if f is not None:
         return f(t)
     ts = t if isinstance(t, tuple) else (t,)
+    ts = tuple(_BUILTIN_TYPES.get(id(y), y) for y in ts)   # `int`, `bool`, ... are wrapped builtins here
+    t = ts if isinstance(t, tuple) else ts[0]
     if isinstance(x, SInt):
         return int in ts
     if isinstance(x, SBool):
@@ -974,6 +976,9 @@ def b_abs(x):
     return abs(x)
 
 
+_BUILTIN_TYPES = {}
+
+
 class _GetAttr:
     def _pyvc_call(self, interp, args, kwargs):
         if len(args) == 3:
@@ -998,6 +1003,8 @@ def b_list(x=()):
 
 def _late():
     from . import values
+    _BUILTIN_TYPES.update({id(b_int): int, id(b_bool): bool, id(b_tuple): tuple, id(b_list): list,
+                           id(values.dict_ctor): dict})
     DEFAULT_GLOBALS['dict'] = values.dict_ctor
     from . import loops
     DEFAULT_GLOBALS['enumerate'] = loops.b_enumerate
@@ -1008,7 +1015,7 @@ DEFAULT_GLOBALS = {
     'len': b_len, 'max': sym.smax, 'min': sym.smin, 'abs': b_abs, 'isinstance': b_isinstance, 'bool': b_bool,
     'int': b_int, 'range': b_range, 'getattr': _GetAttr(), 'setattr': _SetAttr(), 'tuple': b_tuple, 'list': b_list,
     'enumerate': None, 'zip': zip, 'str': str, 'dict': None, 'set': set, 'frozenset': frozenset,
-    'True': True, 'False': False, 'None': None, 'Ellipsis': ...,
+    'True': True, 'False': False, 'None': None, 'Ellipsis': ..., 'slice': slice,
     'IndexError': IndexError, 'ValueError': ValueError, 'KeyError': KeyError, 'RuntimeError': RuntimeError,
     'TypeError': TypeError, 'NotImplementedError': NotImplementedError, 'AttributeError': AttributeError,
     'Exception': Exception, 'BaseException': BaseException, 'SyntaxError': SyntaxError, 'AssertionError':
